@@ -119,6 +119,14 @@ def examine(case):
 
 
 def examine_unknown(case):
+    if case.get('cold'):
+        # the FIRST call after import (no lazily built table yet)
+        reset_state()
+        vs = examine_unknown(dict(case, cold=False))
+        for v in vs:
+            v['sig'] = v['sig'] + ['first-call-after-import']
+            v['case'] = case
+        return vs
     kw = {}
     if case.get('age') is not None:
         kw['age'] = case['age']
@@ -311,6 +319,11 @@ def run(ctx):
                 ctx.count()
                 ctx.label('unknown-pair')
                 ctx.violations(examine_unknown(case))
+                if value == 10.5:
+                    ctx.count()
+                    ctx.label('unknown-pair-as-first-call')
+                    ctx.violations(examine_unknown(dict(case, cold=True)))
+    reset_state()
     mixed_pass(ctx, allr)
     ctx.extra['rows'] = len(rows)
     ctx.exhaustive = False
